@@ -46,6 +46,12 @@ func payloadFault(k int) (*types.Any, string) {
 		m = &errorspb.TestError{}
 	case 12:
 		m = &errorspb.MarkPayload{Msg: "m", Types: []errorspb.ErrorTypeMark{{FamilyName: "f"}}}
+	case 13, 14, 15, 16, 17:
+		// the type URL of a registered message with bytes that cannot be unmarshalled
+		// (a lone 0xff is an unterminated tag varint for every message type)
+		url := []string{"cockroach.errorspb.EncodedError", "cockroach.errorspb.StringPayload", "cockroach.errorspb.TagsPayload",
+			"cockroach.errorspb.MarkPayload", "cockroach.errors.exthttp.EncodedHTTPCode"}[k-13]
+		return &types.Any{TypeUrl: "type.googleapis.com/" + url, Value: []byte{0xff}}, "corrupt-" + url
 	}
 	a, err := types.MarshalAny(m)
 	if err != nil {
@@ -54,7 +60,7 @@ func payloadFault(k int) (*types.Any, string) {
 	return a, a.TypeUrl
 }
 
-const numPayloadFaults = 13
+const numPayloadFaults = 18
 
 // guarded runs f and turns a panic into a failed assertion with the given id.
 func guarded(v *sym.V, id string, f func()) {
